@@ -61,14 +61,32 @@ class Check:
     def gen(self, rng, tier, index):
         nroots = rng.choice([1, 1, 1, 2, 2, 3])
         tops = rng.sample(gen.SAFE_ROOTS, nroots)
+        rx = None
+        if rng.random() < 0.1:
+            # roots given as a pattern (`rx`): every real directory whose name matches is a root of its own
+            stem = rng.choice(["rq", "zt", "m_"])
+            tops = [stem + str(d) for d in rng.sample(range(10), nroots)]
+            rx = {"pattern": stem + rng.choice(["[0-9]", "[0-9]", "[0-9]*", "?[0-9]", "[0-9]?"]), "stem": stem}
         big = tier == "thorough" and rng.random() < 0.1
         world = gen.gen_tree(rng, tops, max_entries=rng.choice([3, 8, 15, 30, 45]) if not big else rng.choice([120, 250]), max_depth=rng.choice([2, 3, 5, 6]) if not big else rng.choice([3, 10]),
                              kinds={"file": 10, "dir": 5, "symlink": 1.5, "fifo": 0.4, "sock": 0.3, "chr": 0.2, "blk": 0.2},
                              adversarial=rng.choice([0, 0.15, 0.5]), nonutf8=rng.choice([0, 0, 0, 0.2]))
+        if rx:
+            stem = rx["stem"]
+            free = [str(d) for d in range(10) if stem + str(d) not in tops]
+            rng.shuffle(free)
+            # entries next to the roots whose names match as well, or nearly: only real directories become roots
+            world["nodes"].append({"path": stem + free[0], "type": "file", "content": "x"})
+            world["nodes"].append({"path": stem + free[1], "type": "symlink", "target": tops[0]})
+            world["nodes"].append({"path": stem + free[2], "type": "symlink", "target": "nowhere"})
+            world["nodes"].append({"path": stem + "10", "type": "dir"})
+            world["nodes"].append({"path": stem + "10/in10", "type": "file", "content": ""})
+            world["nodes"].append({"path": "x" + tops[0], "type": "dir"})
+            world["nodes"].append({"path": "x" + tops[0] + "/inx", "type": "file", "content": ""})
         dirs = [n["path"] for n in world["nodes"] if n["type"] == "dir"]
         roots = []
         maxlvl = max([n["path"].count("/") for n in world["nodes"]] + [1])
-        single_default = nroots == 1 and rng.random() < 0.3
+        single_default = nroots == 1 and rng.random() < 0.3 and not rx
         for t in tops:
             r = {"top": t}
             if single_default:
@@ -84,14 +102,25 @@ class Check:
             r["maxd"] = rng.choice([0, 0, 0, 1, 2, 3, rng.randint(0, maxlvl + 2)])
             r["maxword"] = rng.choice(["maxdepth", "depth"])
             r["mode"] = rng.choice(["", "bfs", "dfs", "dfs"])
-            r["ign"] = rng.choice(["", "", "", "", "hg", "docker", "git", "nogit nohg"])  # no ignore file exists: must change nothing
+            r["ign"] = rng.choice(["", "", "", "", "hg", "docker", "git", "nogit nohg", "archives", "archives"])  # no ignore file, no archive exists: must change nothing
             if single_default:
                 r["mind"] = r["maxd"] = 0
                 r["mode"] = ""
                 r["ign"] = ""
             roots.append(r)
+        if rx:
+            t0 = dict(roots[0], top=None)
+            t0["sp"] = {"kind": rng.choice(["rel", "rel", "dotrel", "abs", "trail"])}
+            t0["mode"] = t0["mode"] or "bfs"
+            rx["template"] = t0
+            roots = []
+        if any("archives" in r.get("ign", "") for r in roots) or (rx and "archives" in rx["template"]["ign"]):
+            moved = gen.zipify(rng, world, keep=set(tops))
+            for r in roots:
+                r["top"] = moved.get(r["top"], r["top"])
+            dirs = [n["path"] for n in world["nodes"] if n["type"] == "dir"]
         cwd = ""
-        if not single_default and rng.random() < 0.2 and "/" not in roots[0]["top"]:
+        if not rx and not single_default and rng.random() < 0.2 and "/" not in roots[0]["top"]:
             cwd = roots[0]["top"]
             roots[0]["sp"] = {"kind": "dot"}
             for r in roots[1:]:
@@ -127,7 +156,7 @@ class Check:
             # the top of the second device is a mount point: its d_ino (in the parent's stream) is the covered directory's number
             st.setdefault(sub, {})["dino"] = rng.choice(pool_all) if pool_all else 777
             plan["stat"] = st
-        return {"world": world, "roots": roots, "plan": plan, "order_class": cls, "multidev": multidev, "cwd": cwd,
+        return {"world": world, "roots": roots, "rx": rx, "plan": plan, "order_class": cls, "multidev": multidev, "cwd": cwd,
                 "cwd_default": single_default, "select_word": rng.choice(["select ", ""]),
                 # sometimes an attribute column rides along (its per-entry cache must not leak into the walk)
                 "extra_col": rng.choice(["", "", "", "size", "is_dir", "mode", "is_empty"])}
@@ -142,6 +171,13 @@ class Check:
             c = copy.deepcopy(case)
             c["extra_col"] = ""
             yield c
+        if case.get("rx"):
+            t = case["rx"]["template"]
+            for k, v in (("mind", 0), ("maxd", 0), ("ign", "")):
+                if t.get(k, v) != v:
+                    c = copy.deepcopy(case)
+                    c["rx"]["template"][k] = v
+                    yield c
         for i, r in enumerate(case["roots"]):
             if len(case["roots"]) > 1:
                 c = copy.deepcopy(case)
@@ -163,9 +199,36 @@ class Check:
                 r["sp"] = {"kind": "rel"}
             yield c
 
+    @staticmethod
+    def roots_of(case):
+        """The roots the query denotes: as listed, or - for a pattern root - every top-level real directory whose name matches."""
+        rx = case.get("rx")
+        if not rx:
+            return case["roots"]
+        import re
+        pat = re.compile(rx["pattern"])
+        out = []
+        for n in case["world"]["nodes"]:
+            if "/" not in n["path"] and n["type"] == "dir" and pat.fullmatch(n["path"]):
+                out.append(dict(rx["template"], top=n["path"]))
+        return out
+
     def query(self, case, sbroot, flip=False):
         parts = []
-        for r in case["roots"]:
+        if case.get("rx"):
+            r = case["rx"]["template"]
+            pat = case["rx"]["pattern"]
+            s = {"rel": pat, "dotrel": "./" + pat, "abs": sbroot + "/" + pat, "trail": pat + "/"}[r["sp"]["kind"]]
+            s = "'" + s + "'"
+            if r["mind"]:
+                s += " mindepth %d" % r["mind"]
+            if r["maxd"]:
+                s += " %s %d" % (r.get("maxword", "maxdepth"), r["maxd"])
+            s += " " + self.mode_of(r, flip)
+            if r.get("ign"):
+                s += " " + r["ign"]
+            parts.append(s + " rx")
+        for r in ([] if case.get("rx") else case["roots"]):
             if r["sp"]["kind"] == "default":
                 continue
             s = quote_root(spell_root(r["sp"], r["top"], sbroot, case.get("cwd", "")))
@@ -196,6 +259,10 @@ class Check:
     def evaluate(self, case, ctx):
         world = case["world"]
         nm = gen.node_map(world)
+        if case.get("rx"):
+            case = dict(case, roots=self.roots_of(case))
+            if not case["roots"]:
+                raise CaseInvalid("pattern matches no directory")
         for r in case["roots"]:
             if r["top"] not in nm or nm[r["top"]]["type"] != "dir":
                 raise CaseInvalid("root missing")
